@@ -32,6 +32,11 @@ class C18(Prop):
     def cost(self, adapter, cfg):
         return 5.0 if cfg["id"].startswith("shipped") else 1.0
 
+    def post(self, results: List[Dict[str, Any]], seed: int) -> List[Dict[str, Any]]:
+        from jsim import regsim
+
+        return regsim.order_compare(results, seed)
+
     def run_task(self, task: Dict[str, Any]) -> Dict[str, Any]:
         from jsim import regsim
 
